@@ -95,4 +95,36 @@ let run (id : string) (hdr : string list) (lines : string list list) (out : stri
        | None -> failwith "no iterator");
       go r
     | l :: _ -> failwith ("C05: bad line: " ^ Stdlib.String.concat " " l) in
-  if Drv_c01.kv_of hdr "conc" "0" = "1" then pr "C conc" else go lines
+  (* header stack=1: explicit layers; the state is built directly (not by a program) *)
+  let build_stack ls =
+    let mems = ref [] and ssts = ref [] in
+    let cur_mem = ref None and cur_sst = ref None in
+    let close () =
+      (match !cur_mem with Some m -> mems := m :: !mems | None -> ());
+      (match !cur_sst with Some es -> ssts := Stdlib.List.rev es :: !ssts | None -> ());
+      cur_mem := None; cur_sst := None in
+    let rec loop ls =
+      match ls with
+      | ("iter" :: _) :: _ | [] -> close (); ls
+      | ["mem"] :: r -> close (); cur_mem := Some Memtable.mt_empty; loop r
+      | ["sst"] :: r -> close (); cur_sst := Some []; loop r
+      | ["e"; k; v; q] :: r when !cur_mem <> None ->
+        (match !cur_mem with Some m -> cur_mem := Some (Memtable.mt_put m (bytes_of_token k) (bytes_of_token v) (n_of_string q)) | None -> ()); loop r
+      | ["t"; k; q] :: r when !cur_mem <> None ->
+        (match !cur_mem with Some m -> cur_mem := Some (Memtable.mt_del m (bytes_of_token k) (n_of_string q)) | None -> ()); loop r
+      | ["e"; k; v] :: r ->
+        (match !cur_sst with Some es -> cur_sst := Some ({ sk = bytes_of_token k; sseq = n_of_int 0; sval = Some (bytes_of_token v) } :: es) | None -> failwith "entry before a layer"); loop r
+      | ["t"; k] :: r ->
+        (match !cur_sst with Some es -> cur_sst := Some ({ sk = bytes_of_token k; sseq = n_of_int 0; sval = None } :: es) | None -> failwith "entry before a layer"); loop r
+      | l :: _ -> failwith ("C05 stack: bad line: " ^ Stdlib.String.concat " " l) in
+    let rest = loop ls in
+    let mems = Stdlib.List.rev !mems and ssts = Stdlib.List.rev !ssts in
+    let active, imms = match mems with
+      | a :: older -> a, Stdlib.List.rev (Stdlib.List.map Memtable.mt_set_imm older)   (* imms: oldest first *)
+      | [] -> Memtable.mt_empty, [] in
+    let tables = Stdlib.List.mapi (fun i es -> { s_level = n_of_int 0; s_num = n_of_int i; s_ts = n_of_int i; s_entries = es }) ssts in
+    s := { !s with active = active; imms = imms; ssts = tables };
+    rest in
+  if Drv_c01.kv_of hdr "conc" "0" = "1" then pr "C conc"
+  else if Drv_c01.kv_of hdr "stack" "0" = "1" then go (build_stack lines)
+  else go lines
